@@ -70,8 +70,69 @@ def check_list(l1, l2, t1, t2, t):
     return None
 
 
+def check_objects(case):
+    """real interpolate_ground_truth_frames on two real frames: ids appearing / disappearing, poses on the segment and the shortest arc"""
+    import math
+    import build
+    from pyquaternion import Quaternion
+    from perception_eval.common.dataset import FrameGroundTruth, interpolate_ground_truth_frames
+    t1, t2, t = case["t1"], case["t2"], case["t"]
+    mk = lambda lst: [build.obj3d(dict(d, frame="map")) for d in lst]
+    f1 = FrameGroundTruth(t1, "0", mk(case["first"]), transforms=build.ego_matrix(case["ego1"]))
+    f2 = FrameGroundTruth(t2, "1", mk(case["second"]), transforms=build.ego_matrix(case["ego2"]))
+    out = interpolate_ground_truth_frames(f1, f2, t)
+    if out.unix_time != t:
+        return f"interpolated frame stamped {out.unix_time}, query time {t}"
+    a = (t - t1) / (t2 - t1)
+    d1 = {d["uuid"]: d for d in case["first"]}
+    d2 = {d["uuid"]: d for d in case["second"]}
+    got = {}
+    for o in out.objects:
+        if o.uuid in got:
+            return f"object {o.uuid} appears twice in the interpolated frame"
+        got[o.uuid] = o
+    if set(got) != set(d1) | set(d2):
+        return f"interpolated frame holds {sorted(got)}, the neighbours hold {sorted(set(d1) | set(d2))}"
+    for u, o in got.items():
+        if u in d1 and u in d2:
+            want = [d1[u][k] + (d2[u][k] - d1[u][k]) * a for k in ("x", "y")]
+            q = Quaternion.slerp(build.quat_yaw(d1[u]["yaw"]), build.quat_yaw(d2[u]["yaw"]), a)
+            if max(abs(o.state.position[0] - want[0]), abs(o.state.position[1] - want[1])) > 1e-9 or Quaternion.absolute_distance(o.state.orientation, q) > 1e-9:
+                return f"object {u}: pose {o.state.position[:2]} is not on the segment at the proportional time ({want})"
+            if o.unix_time != int(t):
+                return f"object {u} stamped {o.unix_time}"
+        else:
+            d = d1.get(u) or d2[u]
+            if abs(o.state.position[0] - d["x"]) > 1e-9 or abs(o.state.position[1] - d["y"]) > 1e-9:
+                return f"object {u} is present in one neighbour only and must be kept as it is"
+    return None
+
+
+def gen_objects(rnd):
+    ids = [str(i) for i in range(rnd.randint(0, 5))]
+    mk = lambda u: dict(label="car", uuid=u, x=round(rnd.uniform(-20, 20), 2), y=round(rnd.uniform(-20, 20), 2), yaw=round(rnd.uniform(-3, 3), 2))
+    first = [mk(u) for u in ids if rnd.random() < 0.75]
+    second = [mk(u) for u in ids if rnd.random() < 0.75]
+    rnd.shuffle(second)
+    t1 = rnd.randint(0, 5) * 100000
+    t2 = t1 + rnd.randint(1, 5) * 100000
+    ego = lambda: dict(x=round(rnd.uniform(-5, 5), 2), y=round(rnd.uniform(-5, 5), 2), yaw=round(rnd.uniform(-3, 3), 2))
+    return dict(first=first, second=second, t1=t1, t2=t2, t=rnd.choice([t1, t2, rnd.randint(t1, t2)]), ego1=ego(), ego2=ego())
+
+
 def search(item, seed):
     rnd = random.Random(seed)
+    if "interpolate_object" in item["func"] or "interpolate_state" in item["func"] or "interpolate_quaternion" in item["func"] or item["name"] == "bounded-native-search":
+        for _ in range(150):
+            case = gen_objects(rnd)
+            try:
+                why = check_objects(case)
+            except Exception as ex:
+                why = f"raised {type(ex).__name__}: {ex}"
+            if why:
+                return dict(function="interpolate_ground_truth_frames", input=case, observed=why)
+        if item["name"] != "bounded-native-search":
+            return None
     if "interpolate_list" in item["func"]:
         for _ in range(300):
             n = rnd.randint(0, 4)
@@ -97,7 +158,10 @@ def search(item, seed):
 
 def replay(payload):
     i = payload["input"]
-    why = check_list(i["l1"], i["l2"], i["t1"], i["t2"], i["t"]) if payload["function"] == "interpolate_list" else check_lookup(i["times"], i["t"], i["tol"])
+    if payload["function"] == "interpolate_ground_truth_frames":
+        why = check_objects(i)
+    else:
+        why = check_list(i["l1"], i["l2"], i["t1"], i["t2"], i["t"]) if payload["function"] == "interpolate_list" else check_lookup(i["times"], i["t"], i["tol"])
     return (why is None, why or "ok")
 
 
